@@ -164,7 +164,14 @@ def run_group(cps, pathsname, filename, method, if_all_agree=False):
             raised = core.Raised(e).to_json()
         members = []
         try:
-            results = cps.results_manager.get_named_results(pathsname.lstrip("$").split(".")[0] if pathsname.startswith("$") else pathsname) or []
+            key = pathsname.lstrip("$").split(".")[0] if pathsname.startswith("$") else pathsname
+            try:
+                results = cps.results_manager.get_named_results(key) or []
+            except Exception:  # noqa: BLE001
+                if "#" not in key:
+                    raise
+                # the in-memory results of a 'group#identity' run may be filed under either name
+                results = cps.results_manager.get_named_results(key.split("#")[0]) or []
         except Exception as e:  # noqa: BLE001
             results = []
             raised = raised or core.Raised(e).to_json()
